@@ -16,6 +16,38 @@ from props import visitlib as vl
 PID = "C02"
 
 
+PLUGIN_NAMES = ("getattr", "setattr", "hasattr", "delattr", "sorted", "defaultdict")
+
+
+def plugin_named_methods(rng):
+    """Round 5 (seeded C02-m14): a METHOD / module member that merely is NAMED like a plug-in handled builtin
+    (`store.setattr(item, 'colour', 3)`, `schema.hasattr(row, 'id')`, `xs.sorted(key=lambda i: i.k)`) on a receiver
+    that is a parameter, a local, an attribute chain or an unknown global: the callee does not denote the builtin, so
+    none of the plug-in derivations (target of a getattr-family call, sorted key attribute, defaultdict factory call)
+    is admitted — the call is an ordinary method call."""
+    receivers = ["p", "p.store", "loc", "unknown_glob", "p.items[0]", "p.make()"]
+    out = []
+    for k in range(3):
+        body, names = [], []
+        for i, plug in enumerate(PLUGIN_NAMES):
+            recv = rng.choice(receivers)
+            arg = rng.choice(["q", "q.item", "q.rows[0]"])
+            if plug in ("getattr", "hasattr", "delattr"):
+                call = f"{recv}.{plug}({arg}, 'colour')"
+            elif plug == "setattr":
+                call = f"{recv}.{plug}({arg}, 'colour', q.value)"
+            elif plug == "sorted":
+                call = f"{recv}.{plug}({arg}, key=lambda i: i.rank)"
+            else:
+                call = f"{recv}.{plug}(q.make)"
+            stmt = rng.choice([f"{call}", f"r = {call}", f"return {call}", f"if {call}:\n        pass"])
+            name = f"fn_pm{k}_{i}"
+            names.append(name)
+            body.append(f"def {name}(p, q):\n    loc = p.local\n    {stmt}\n")
+        out.append(("\n".join(body), names))
+    return out
+
+
 def run(tier, seed, build):
     warnings.simplefilter("ignore")
     res = common.Result(PID)
@@ -44,7 +76,7 @@ def run(tier, seed, build):
     rng = random.Random(seed)
     n_modules = 60 if tier == "quick" else 900
     model = common.Model()
-    cases = vl.run_batch(rng, n_modules, model)
+    cases = vl.run_batch(rng, n_modules, model, extra_sources=plugin_named_methods(rng))
     cases += vl.run_file_batch(rng, n_modules // 3, model)
     # analysed callables whose OWN SIGNATURE (defaults / annotations / decorators / class header) is non-literal:
     # capture route (judged by the loop below) + whole projects (FileAnalyser vs model, pipeline, CLI; judged inside)
